@@ -9,7 +9,10 @@ NewKinds == {"neg", "negs", "negb", "sq", "nsq", "dbl", "diff", "prod", "quo", "
 PlainKinds == OldKinds \cup {"self"}     \* slice A: the kinds without sign / power / product, + reads-itself
 Spellings == {"negs", "negb"}            \* only offered for the first variable
 AllKinds == OldKinds \cup NewKinds
-BothICs  == {NoIC, 3}
+BothICs  == {NoIC, 0, 3}     \* an explicitly stated ZERO initial condition is an initial condition like any other
+(* (bound of the instances: the zero is offered on the alias-like kinds, where it pins the variable   *)
+(*  at 0 while its equation would give it the k = 0 value of another variable)                       *)
+ZeroOK(d, ic) == ic # 0 \/ d.kind \in {"alias", "palias", "neg"}
 
 MC_Vars3 == << "x", "y", "w" >>
 MC_Vars4 == << "x", "y", "x1", "y1" >>       \* names that are prefixes of each other (simulation)
@@ -38,6 +41,8 @@ NumICs(c)  == Cardinality({ x \in DOMAIN c : c[x] # NoIC })
 (*      that is 0 at k = 0 only, under a quotient that is set aside or that the other variable    *)
 (*      reads                                                                                     *)
 MC_LineQuick(i, d, ic, a, c) ==
+  /\ ZeroOK(d, ic)
+  /\
     \/ i <= 2
     \/ /\ i = 3 /\ ic = NoIC
        /\ \/ d.kind \in {"inc", "lag"} /\ KindsOf(a) \subseteq PlainKinds
@@ -50,10 +55,12 @@ MC_LineQuick(i, d, ic, a, c) ==
 (* thorough: every system over 3 variables of the kinds of slice A (any initial conditions) and   *)
 (* every system over 3 variables of all kinds with at most one initial condition                  *)
 MC_LineThorough(i, d, ic, a, c) ==
+  /\ ZeroOK(d, ic)
+  /\
     \/ KindsOf(a) \cup {d.kind} \subseteq OldKinds
     \/ NumICs(c) + (IF ic = NoIC THEN 0 ELSE 1) <= 1
 
-MC_LineAny(i, d, ic, a, c) == TRUE
+MC_LineAny(i, d, ic, a, c) == ZeroOK(d, ic)
 
 (* Solve slices.  The ordinary solve is always taken.  The steady-state option:                  *)
 (*   quick     where the system settles AND the settled values differ from the time-zero values  *)
@@ -83,7 +90,7 @@ MC_EditThorough(ed, st) ==
     /\ st.solve = "plain" /\ NOrigOf(st) <= 2
     /\ \/ ed.op = "recoef"
        \/ ed.op = "extend" /\ ed.def.kind \in {"inc", "alias", "lag"} /\ ed.ic = NoIC
-MC_LineTwo(i, d, ic, a, c) == i <= 2          \* first blocks of 1 or 2 variables (instance `blocks`)
+MC_LineTwo(i, d, ic, a, c) == i <= 2 /\ ZeroOK(d, ic)          \* first blocks of 1 or 2 variables (instance `blocks`)
 MC_SolvePlain(ss, st) == ~ss
 MC_EditNone(ed, st) == FALSE
 MC_EditAny(ed, st) == TRUE
